@@ -550,6 +550,8 @@ func (jenny RawTypes) formatDefaultValue(fieldType ast.Type, resolvedFieldType a
 		mapType.Nullable = false
 
 		valueType := resolvedFieldType.AsMap().ValueType
+		// the values can be typed by a reference (a named list, a named map)
+		resolvedValueType := jenny.typeFormatter.context.ResolveRefs(valueType)
 
 		keys := make([]string, 0, len(entries))
 		for key := range entries {
@@ -559,7 +561,7 @@ func (jenny RawTypes) formatDefaultValue(fieldType ast.Type, resolvedFieldType a
 
 		formatted := make([]string, 0, len(keys))
 		for _, key := range keys {
-			formatted = append(formatted, formatScalar(key)+": "+jenny.formatDefaultValue(valueType, valueType, entries[key]))
+			formatted = append(formatted, formatScalar(key)+": "+jenny.formatDefaultValue(valueType, resolvedValueType, entries[key]))
 		}
 
 		return jenny.typeFormatter.formatType(mapType) + "{" + strings.Join(formatted, ", ") + "}"
